@@ -467,6 +467,11 @@ func (s *c02) execOffer(of Offer, task string) (res *offerRes) {
 			if !pr.valid && pr.why != "malformed-ref" {
 				obstructed = true // the handler stops at the first failing part
 			}
+			if pr.valid && strings.Contains(s.cfg.Root.Shape(), "encrypt") && len(pr.eff) > maxBlob-(64<<10) {
+				// refused by the encrypting store (ciphertext over the cap):
+				// the handler stops here too
+				obstructed = true
+			}
 		}
 		rd := NewSimReader(enc, sp)
 		req, err := http.NewRequestWithContext(ctx, "POST", "http://c02.sim/camli/upload", io.NopCloser(rd))
@@ -808,11 +813,21 @@ func (s *c02) runGroup(offers []Offer, i, j int) bool {
 						}
 					}
 				}
+			case pr.mustTake && strings.Contains(s.cfg.Root.Shape(), "encrypt") && len(pr.eff) > maxBlob-(64<<10):
+				// The encrypting store's ciphertext is larger than the
+				// plaintext, so a plaintext blob just under the cap does not
+				// fit the wrapped store's cap and is refused (loudly, since
+				// the "refuse an oversized source" repair; before it the
+				// ciphertext was silently truncated). The statement gives a
+				// necessary condition for acceptance, not a sufficient one.
+				s.reached("encrypt-near-cap-refused")
 			case pr.mustTake:
 				if s.report("valid-rejected:"+of.Path, fmt.Sprintf("%s is valid and was offered through a healthy stream, but was rejected: %v", what, pr.err), i+k) {
 					return true
 				}
-			case of.Path == "receive" && pr.refOK && (pr.why == "hash-mismatch" || pr.why == "oversize" || pr.why == "oversize-prefix") && !of.Reader.fails():
+			case of.Path == "receive" && pr.refOK && pr.why == "hash-mismatch" && !of.Reader.fails():
+				// (an oversized body may be refused as "too large" — the
+				// statement lists corrupt blob / too large / unsupported hash)
 				// Receive: "The error will be ErrCorruptBlob if the blobref didn't match"
 				if !errors.Is(pr.err, blobserver.ErrCorruptBlob) {
 					if s.report("rejection-not-ErrCorruptBlob", fmt.Sprintf("%s rejected with %q, not ErrCorruptBlob", what, pr.err), i+k) {
